@@ -472,27 +472,58 @@ def skeleton(body, recursive_facts=None):
     return out
 
 
+SHARED_OF = [("try_borrow_mut", "try_borrow"), ("borrow_mut", "borrow"), ("FetchMut", "Fetch"), ("AtomicRefMut", "AtomicRef"), ("as_mut", "as_ref"),
+             ("try_fetch_mut", "try_fetch"), ("get_mut", "get"), ("deref_mut", "deref")]
+
+
+def _tabulation(facts, b):
+    """The function's canonical tabulation with exclusive names read as their shared counterparts."""
+    from .sem import Evaluator, Policy
+    from .semcanon import canonical
+    ev = Evaluator(facts, Policy(opaque=[A.RESID + "::new", A.RESID + "::assert_same_type_id"]))
+    out = []
+    for row in canonical(ev, ev.eval(b), keep=("borrow", "borrow_mut")):
+        r = repr(row)
+        for a, b_ in SHARED_OF:
+            r = r.replace(a, b_)
+        out.append(r)
+    return sorted(out)
+
+
 def sibling(ctx, report, rule, facts, config):
-    """C08.SIBLING: shared and exclusive variants have equal skeletons modulo the declared substitution."""
+    """C08.SIBLING: the shared and the exclusive variant of a lookup do the same thing on every way through, modulo
+    shared <-> exclusive (compared on the canonical tabulation, so that the two may be spelled differently)."""
     pairs = [("try_fetch", "try_fetch_mut"), ("try_fetch_by_id", "try_fetch_mut_by_id")]
     for a, b_ in pairs:
         ba, bb = facts.one(A.WORLD + "::" + a), facts.one(A.WORLD + "::" + b_)
-        sa = skeleton(ba) + [x for c in facts.closures_of(ba) for x in skeleton(c)]
-        sb = skeleton(bb) + [x for c in facts.closures_of(bb) for x in skeleton(c)]
-        report.ob(rule, "%s~%s" % (a, b_), sa == sb, "equal call skeletons modulo shared<->exclusive (%d calls)" % len(sa) if sa == sb else
-                  "shared and exclusive variants diverge: %s vs %s" % (sa, sb), site=bb.loc(), config=config)
+        report.touched(ba, config)
+        report.touched(bb, config)
+        sa, sb = _tabulation(facts, ba), _tabulation(facts, bb)
+        only_a = [x for x in sa if x not in sb]
+        only_b = [x for x in sb if x not in sa]
+        report.ob(rule, "%s~%s" % (a, b_), sa == sb, "equal tabulations modulo shared<->exclusive (%d ways)" % len(sa) if sa == sb else
+                  "shared and exclusive variants diverge: only %s: %s; only %s: %s" % (a, [x[:300] for x in only_a[:2]], b_, [x[:300] for x in only_b[:2]]), site=bb.loc(), config=config)
     da = facts.one(name="deref", trait="std::ops::Deref", self_head=A.FETCH)
     db = facts.one(name="deref", trait="std::ops::Deref", self_head=A.FETCHMUT)
-    report.ob(rule, "Fetch::deref~FetchMut::deref", skeleton(da) == skeleton(db), "equal skeletons %s" % skeleton(da), site=db.loc(), config=config)
+    sa, sb = _tabulation(facts, da), _tabulation(facts, db)
+    report.ob(rule, "Fetch::deref~FetchMut::deref", sa == sb, "equal tabulations (%d way(s))" % len(sa) if sa == sb else "the two guards read their content differently: %s vs %s" % (sa[:1], sb[:1]), site=db.loc(), config=config)
 
 
 def clone_rule(ctx, report, rule, facts, config):
-    prog = ctx.program(facts)
+    from . import semq as Q
     b = facts.one(name="clone", trait="std::clone::Clone", self_head=A.FETCH)
     report.touched(b, config)
-    ret = prog.bt(b).local(0)
-    ok = (ret[0] == "agg" and ret[2] == A.FETCH + "::Fetch" and ret[3][0][0] == "call" and prog.bt(b).callee(ret[3][0][1]).name == "clone"
-          and "AtomicRef" in prog.bt(b).callee(ret[3][0][1]).path and ret[3][0][2] == (("field", ("param", 1), "inner", A.FETCH),))
+    ev, ends = Q.sem(ctx, facts, b)
+    rets = Q.returns(ends)
+    ok = bool(rets)
+    for e in rets:
+        o = Q.record(ev, e.ret, A.FETCH + "::Fetch")
+        v = o.get("inner") if o else None
+        while isinstance(v, tuple) and v and v[0] == "cast":
+            v = v[2]
+        if not (v is not None and Q.is_call(ev, v, "clone") and "AtomicRef" in (Q.callee_of(ev, v).path or "") and len(v[2]) == 1
+                and Q.strip(ev, v[2][0]) == ("field", ("param", 1), "inner", A.FETCH)):
+            ok = False
     report.ob(rule, "Fetch::clone", ok, "Fetch { inner: AtomicRef::clone(&self.inner) }: the clone registers its own shared borrow" if ok else
               "Fetch::clone does not go through AtomicRef::clone", site=b.loc(), config=config)
     cl = [im for im in facts.impls if im.get("trait") == "std::clone::Clone" and im.get("self_head") in (A.FETCHMUT, A.WRITE)]
@@ -664,8 +695,8 @@ def insert_rules(ctx, report, rule, facts, config):
                 report.ob(rule, "stores/%s" % b.qname, ok, "resources.insert(id, AtomicRefCell::new(Box::<R>::new(r))) with the asserted id" if ok else
                           "resource table insertion in %s does not store Box::<R>::new(r) under the asserted id" % b.qname, site=b.loc(bb), config=config)
             elif c.name == "entry":
-                ok = b.qname == A.WORLD + "::entry" and _stores_ok(ctx, facts, b, "entry")
-                report.ob(rule, "stores/%s" % b.qname, ok, "Entry<R> wraps resources.entry(ResourceId::new::<R>())" if ok else "World::entry does not key the entry by its own type", site=b.loc(bb), config=config)
+                # what the entry is wrapped into, and for which type, is decided by entry_built (C09.INSERT/entry-built)
+                report.ob(rule, "stores/%s" % b.qname, True, "an entry of the table is taken: decided where it is wrapped (entry-built)", site=b.loc(bb), config=config)
             elif c.name in ("or_insert_with", "or_insert"):
                 rb = facts.bodies.get(b.root_key, b) if b.is_closure and b.root_key else b
                 ok = rb.self_head == A.ENTRY and rb.container == "inherent" and _stores_ok(ctx, facts, rb, "vacant")
@@ -673,6 +704,7 @@ def insert_rules(ctx, report, rule, facts, config):
             else:
                 report.ob(rule, "stores/%s/%s" % (b.qname, c.name), False, "unaudited insertion into the resource table through `%s`" % c.name, site=b.loc(bb), config=config)
     report.floor(rule, "insertions into the resource table", n, 3, config=config)
+    entry_built(ctx, report, rule, facts, config)
     # wrappers use the id of their own type
     from . import semq as Q
     RNEW = A.RESID + "::new"
@@ -1030,39 +1062,190 @@ def guard_built(ctx, report, rule, facts, config):
     report.floor(rule, "guard construction sites", n_static[A.FETCH] + n_static[A.FETCHMUT], 2, config=config)
 
 
-def guard_rules(ctx, report, rule, facts, config):
-    """C09.GUARD / DOWNCAST / ONCE."""
-    prog = ctx.program(facts)
-    guard_built(ctx, report, rule, facts, config)
-    # unchecked downcasts
-    want = {
-        "<" + A.FETCH + "<T> as std::ops::Deref>::deref": "downcast_ref_unchecked",
-        "<" + A.FETCHMUT + "<T> as std::ops::Deref>::deref": "downcast_ref_unchecked",
-        "<" + A.FETCHMUT + "<T> as std::ops::DerefMut>::deref_mut": "downcast_mut_unchecked",
-        A.WORLD + "::get_mut::{closure#0}": "downcast_mut_unchecked",
-    }
+def entry_built(ctx, report, rule, facts, config):
+    """Every Entry<X> that is built wraps resources.entry(ResourceId::new::<X>()): the slot a later or_insert fills with an X
+    is the slot of X.  A helper that wraps what it is given (create_entry) is decided in its callers."""
+    from . import semq as Q
+    from .terms import subterms
+
+    def root(b):
+        return facts.bodies.get(b.root_key, b) if b.is_closure and b.root_key else b
+
+    builders = {}
+    for b in sorted(facts.bodies.values(), key=lambda b: b.key):
+        for blk in b.blocks:
+            for st in blk["stmts"]:
+                if st["k"] == "assign" and st["rv"]["k"] == "agg" and st["rv"].get("adt") == A.ENTRY:
+                    builders.setdefault(root(b).key, root(b))
+    callers = facts.callers()
+    work = sorted(builders.values(), key=lambda b: b.key)
+    seen = set()
+    n_ok = 0
+    while work:
+        fn = work.pop(0)
+        if fn.key in seen:
+            continue
+        seen.add(fn.key)
+        report.touched(fn, config)
+        ev, ends = Q.sem(ctx, facts, fn, opaque=[A.RESID + "::new"])
+        found = []
+        for e in ends:
+            terms_ = [e.ret] if e.ret is not None else []
+            for y in _deep_all(e.path.events):
+                if y[0] == "call":
+                    terms_.extend(y[3])
+                elif y[0] == "store":
+                    terms_.append(y[3])
+            gs = []
+            for t in terms_:
+                for st in subterms(t):
+                    if isinstance(st, tuple) and len(st) > 4 and st[0] == "agg" and st[1] == "adt" and st[2].rsplit("::", 1)[0] == A.ENTRY and st not in gs:
+                        gs.append(st)
+            for g in gs:
+                xs = ev.agg_targs.get(g, set())
+                if len(xs) != 1 or len(list(xs)[0]) != 1:
+                    found.append(("bad", "the entry's type cannot be read off its construction"))
+                    continue
+                x = list(xs)[0][0]
+                inner = Q.strip(ev, dict(zip(g[4], g[3])).get("inner"))
+                if isinstance(inner, tuple) and inner and inner[0] == "param":
+                    found.append(("param", inner[1]))
+                elif Q.is_call(ev, inner, "entry") and not Q.callee_of(ev, inner).local and len(inner[2]) == 2 and _table_recv(ev, inner[2][0]):
+                    k = Q.strip(ev, inner[2][1])
+                    if Q.is_call(ev, k, "new") and Q.callee_of(ev, k).self_head == A.RESID and ev.targs(k) == [x]:
+                        found.append(("ok", "resources.entry(ResourceId::new::<%s>())" % x))
+                    else:
+                        found.append(("bad", "an Entry<%s> wraps the slot of another key" % x))
+                else:
+                    found.append(("bad", "an Entry<%s> wraps something else than an entry of the resource table" % x))
+        bad = sorted(set(r[1] for r in found if r[0] == "bad"))
+        needs = [r for r in found if r[0] == "param"]
+        oks = sorted(set(r[1] for r in found if r[0] == "ok"))
+        if needs and not bad:
+            cs = sorted(set(root(cb).key for cb, bb in callers.get(fn.key, [])))
+            if fn.raw.get("pub") or not cs:
+                bad.append("the entry wraps what the caller hands in, and %s" % ("the function is public" if fn.raw.get("pub") else "no caller is in sight"))
+            else:
+                work.extend(facts.bodies[k] for k in cs)
+        if not found:
+            bad.append("the construction is on no way through the function")
+        n_ok += 1 if (oks and not bad) else 0
+        report.ob(rule, "entry-built/%s" % fn.qname, not bad, "; ".join(bad) if bad else ("; ".join(oks) if oks else "wraps the entry it is given: decided in its callers"),
+                  site=fn.loc(), config=config)
+    report.floor(rule, "Entry constructions decided in context", n_ok, 1, config=config)
+
+
+def _downcast_source(ev, fn, t, x, gmr_key):
+    """Where the value handed to an unchecked downcast to `x` comes from: ('ok', why) | ('param', i) | ('bad', why)."""
+    from . import semq as Q
+    for _ in range(64):
+        while isinstance(t, tuple) and t and t[0] == "cast":
+            t = t[2]
+        if not (isinstance(t, tuple) and t):
+            return ("bad", "unknown value")
+        k = t[0]
+        if k == "param":
+            return ("param", t[1])
+        if k in ("variant", "proj", "index"):
+            t = t[1]
+            continue
+        if k == "field":
+            if t[3] in (A.FETCH, A.FETCHMUT) and t[2] == "inner" and t[1] == ("param", 1) and fn.self_head == t[3]:
+                return ("ok", "the guard's own cell content, a guard of %s" % x) if _last_targ(fn.self_ty) == x else ("bad", "the downcast type is not the guard's")
+            if str(t[3] or "").startswith("shred::"):
+                return ("bad", "the value is read from %s.%s" % (t[3].rsplit("::", 1)[1], t[2]))
+            t = t[1]
+            continue
+        if k == "call":
+            c = ev.callee(t[1])
+            if c is None:
+                return ("bad", "unknown call")
+            if c.key == gmr_key or (c.name in ("get_mut", "get") and not c.local and len(t[2]) == 2 and _table_recv(ev, t[2][0])):
+                key = Q.strip(ev, t[2][1])
+                if Q.is_call(ev, key, "new") and Q.callee_of(ev, key).self_head == A.RESID and ev.targs(key) == [x]:
+                    return ("ok", "what the table holds under ResourceId::new::<%s>()" % x)
+                return ("bad", "the looked-up slot is not the one of %s" % x)
+            if c.local:
+                return ("bad", "the value comes out of %s" % c.name)
+            if c.name in CELL_VIEWS and t[2]:
+                t = t[2][0]
+                continue
+            return ("bad", "the value comes out of %s" % c.name)
+        return ("bad", "the value is %s" % (t[:2],))
+    return ("bad", "too deep")
+
+
+def downcast_sites(ctx, report, rule, facts, config):
+    """Every unchecked downcast to X outside the checked helpers is applied to something that is visibly an X: the content
+    of a guard of X, or what the table holds under ResourceId::new::<X>().  A private helper that downcasts what it is
+    given is decided in each of its callers."""
+    from . import semq as Q
+    names = ("downcast_unchecked", "downcast_ref_unchecked", "downcast_mut_unchecked")
+    gmr = facts.one(A.WORLD + "::get_mut_raw")
+
+    def root(b):
+        return facts.bodies.get(b.root_key, b) if b.is_closure and b.root_key else b
+
+    users = {}
     seen = 0
     for b in sorted(facts.bodies.values(), key=lambda b: b.key):
-        bt = prog.bt(b)
+        prog = ctx.program(facts)
         for bb, t in b.normal_calls():
             c = Callee(t["func"])
-            if c.name in ("downcast_unchecked", "downcast_ref_unchecked", "downcast_mut_unchecked") and c.local:
+            if c.name in names and c.local:
                 if "res_downcast" in b.key:
                     # the checked variants: call must be dominated by a true `is::<T>()` test
+                    bt = prog.bt(b)
                     iss = [x for x, t2 in b.normal_calls() if Callee(t2["func"]).name == "is" and _type_args(Callee(t2["func"])) == _type_args(c)]
                     ok = bool(iss) and bt.cfg.dominates(iss[0], bb)
                     report.ob(rule, "downcast-checked/%s" % b.qname, ok, "unchecked downcast behind self.is::<T>()" if ok else "unchecked downcast without the `is` test", site=b.loc(bb), config=config)
                     continue
                 seen += 1
-                fnq = b.qname.split("::{closure", 1)[0]
-                want_fn = dict((k.split("::{closure", 1)[0], v) for k, v in want.items())
-                ok = want_fn.get(fnq) == c.name and _type_args(c) == ["T"]
-                if ok and fnq != A.WORLD + "::get_mut":
-                    r_, p_ = root(bt.call_args(bb)[0], bt, facts.crate)
-                    ok = (r_, p_) == (SELF, ["inner"])
-                report.ob(rule, "downcast/%s" % b.qname, ok, "%s::<T> on the guard's own cell content" % c.name if ok else
-                          "unchecked downcast at an unaudited site or with a type not tied to the guard", site=b.loc(bb), config=config)
+                users.setdefault(root(b).key, root(b))
     report.floor(rule, "unchecked downcast sites outside res_downcast", seen, 4, config=config)
+    callers = facts.callers()
+    work = sorted(users.values(), key=lambda b: b.key)
+    done = set()
+    n_ok = 0
+    while work:
+        fn = work.pop(0)
+        if fn.key in done:
+            continue
+        done.add(fn.key)
+        report.touched(fn, config)
+        ev, ends = Q.sem(ctx, facts, fn, opaque=[gmr.key, A.RESID + "::new"] + _downcasts(facts))
+        found = []
+        for e in ends:
+            for y in _deep_all(e.path.events):
+                if y[0] == "call" and y[2].local and y[2].name in names and y[3]:
+                    xs = ev.targs(y[4]) or []
+                    if len(xs) != 1:
+                        found.append(("bad", "the downcast type cannot be read off the call"))
+                    else:
+                        found.append(_downcast_source(ev, fn, y[3][0], xs[0], gmr.key))
+        bad = sorted(set(r[1] for r in found if r[0] == "bad"))
+        needs = [r for r in found if r[0] == "param"]
+        oks = sorted(set(r[1] for r in found if r[0] == "ok"))
+        if needs and not bad:
+            cs = sorted(set(root(cb).key for cb, bb in callers.get(fn.key, [])))
+            if fn.raw.get("pub") or not cs:
+                bad.append("what is downcast is handed in by the caller, and %s" % ("the function is public" if fn.raw.get("pub") else "no caller is in sight"))
+            else:
+                work.extend(facts.bodies[k] for k in cs)
+        if not found:
+            bad.append("the downcast is on no way through the function")
+        n_ok += 1 if (oks and not bad) else 0
+        report.ob(rule, "downcast/%s" % fn.qname, not bad, "; ".join(bad) if bad else ("; ".join(oks) if oks else "downcasts what it is given: decided in its callers"),
+                  site=fn.loc(), config=config)
+    report.floor(rule, "unchecked downcasts decided in context", n_ok, 4, config=config)
+
+
+def guard_rules(ctx, report, rule, facts, config):
+    """C09.GUARD / DOWNCAST / ONCE."""
+    prog = ctx.program(facts)
+    guard_built(ctx, report, rule, facts, config)
+    # unchecked downcasts
+    downcast_sites(ctx, report, rule, facts, config)
     from . import semq as Q
     gm = facts.one(A.WORLD + "::get_mut")
     gmr = facts.one(A.WORLD + "::get_mut_raw")
@@ -1093,17 +1276,28 @@ def guard_rules(ctx, report, rule, facts, config):
     report.ob(rule, "downcast/get_mut-source", ok and not bad, "the unchecked downcast in get_mut is applied to what get_mut_raw(ResourceId::new::<T>()) found, and only then", site=gm.loc(), config=config)
     # Box::from_raw fed by Box::into_raw
     n_from = 0
+    done_roots = set()
     for b in sorted(facts.bodies.values(), key=lambda b: b.key):
-        bt = prog.bt(b)
-        for bb, t in b.normal_calls():
-            c = Callee(t["func"])
-            if c.name == "from_raw" and "Box" in c.path:
-                n_from += 1
-                a = bt.call_args(bb)[0]
-                while a[0] == "cast":
-                    a = a[2]
-                ok = a[0] == "call" and bt.callee(a[1]).name == "into_raw" and "Box" in bt.callee(a[1]).path and a[2] == (("param", 1),)
-                report.ob(rule, "once/%s" % b.qname, ok, "Box::from_raw(Box::into_raw(self) as *mut T): ownership moves once" if ok else "Box::from_raw on a pointer that is not a fresh Box::into_raw", site=b.loc(bb), config=config)
+        if not any(Callee(t["func"]).name == "from_raw" and "Box" in Callee(t["func"]).path for bb, t in b.normal_calls()):
+            continue
+        rb_ = facts.bodies.get(b.root_key, b) if b.is_closure and b.root_key else b
+        if rb_.key in done_roots:
+            continue
+        done_roots.add(rb_.key)
+        ev, ends = Q.sem(ctx, facts, rb_, opaque=_downcasts(facts) if rb_.name not in ("downcast", "downcast_unchecked") else [])
+        ok = True
+        k = 0
+        for e in ends:
+            for y in _deep_all(e.path.events):
+                if y[0] == "call" and y[2].name == "from_raw" and "Box" in (y[2].path or "") and y[3]:
+                    k += 1
+                    a = y[3][0]
+                    while isinstance(a, tuple) and a and a[0] == "cast":
+                        a = a[2]
+                    if not (Q.is_call(ev, a, "into_raw") and "Box" in (Q.callee_of(ev, a).path or "") and len(a[2]) == 1 and Q.strip(ev, a[2][0])[0] == "param"):
+                        ok = False
+        n_from += 1 if k else 0
+        report.ob(rule, "once/%s" % rb_.qname, ok and k >= 1, "Box::from_raw(Box::into_raw(self) as *mut T): ownership moves once" if ok and k else "Box::from_raw on a pointer that is not a fresh Box::into_raw of the function's own argument", site=rb_.loc(), config=config)
     report.floor(rule, "Box::from_raw sites", n_from, 1, config=config)
     # remove_by_id returns the removed value through the checked downcast
     rb = facts.one(A.WORLD + "::remove_by_id")
